@@ -197,6 +197,27 @@ func (st *state) feedOp(toks []string) string {
 			verdict = "MISMATCH want=[" + strings.Join(want, " ") + "] got=[" + strings.Join(gotR, " ") + "]"
 		}
 		return fmt.Sprintf("feedp all=%d matched=%d %s", len(all), len(gotR), verdict)
+	case "feedw": // like feed, and every record with the digest of its Op.Encode() bytes (the model: ProtoWire.encodeOp)
+		if in.feed == nil {
+			return "feedw"
+		}
+		in.feed.mu.Lock()
+		wops := in.feed.ops
+		in.feed.ops = nil
+		in.feed.bad = nil
+		in.feed.mu.Unlock()
+		wparts := make([]string, len(wops))
+		for i, op := range wops {
+			wparts[i] = renderOp(op) + "@" + fmt.Sprintf("%016x", fnv64(op.Encode()))
+		}
+		wallHSet := len(wops) > 1
+		for _, op := range wops {
+			wallHSet = wallHSet && op.Type == patch.OpTypeHSet && op.Data.GetKey() == wops[0].Data.GetKey()
+		}
+		if wallHSet {
+			sort.Strings(wparts)
+		}
+		return compact("feedw " + strings.Join(wparts, " "))
 	case "feed":
 		if in.feed == nil {
 			return "feed"
